@@ -32,6 +32,10 @@ def urls_from_text(string):
                 remainder, url = url.split("](", 1)
                 yield remainder.strip()
 
+                # NOTE: the link target may not be an url at all
+                if not re.match(URL_IN_TEXT_RE, url):
+                    continue
+
         last_punct = None
 
         stop = len(url) - 1
